@@ -8,6 +8,7 @@ package main
 // (b) all raw operation sequences to a depth from the empty store (chooser DFS).
 
 import (
+	"encoding/json"
 	"fmt"
 	"reflect"
 	"sort"
@@ -21,6 +22,11 @@ import (
 func init() {
 	register(&Property{ID: "C14", Instr: false, Gen: genC14})
 }
+
+var (
+	sliceA = []int{7, 8}
+	sliceB = []string{"y"}
+)
 
 var stKeys = []string{"", "a", "ü"}
 var stVals = []any{nil, 1, "s"}
@@ -154,6 +160,47 @@ func (s *storeSys) observe(after string) {
 			s.fail("after %s: Has(%q) = %v, map says %v", after, k, h, mok)
 		}
 	}
+	// the typed getters and Bind are views of the same map: they must follow every update
+	// (including updates made through Merge) at once
+	for _, k := range stKeys {
+		mv, mok := s.model[k]
+		if p, pv := try(func() {
+			wantI, _, okI := specNumeric(mv)
+			if !mok || !okI {
+				wantI = 0
+			}
+			if g := s.real.GetInt(k); g != wantI {
+				s.fail("after %s: GetInt(%q) = %d, map value %v", after, k, g, mv)
+			}
+			wantS, _ := mv.(string)
+			if g := s.real.GetString(k); g != wantS {
+				s.fail("after %s: GetString(%q) = %q, map value %v", after, k, g, mv)
+			}
+			var wantSl []any
+			if mok && mv != nil && reflect.TypeOf(mv).Kind() == reflect.Slice {
+				wantSl = specToSlice(mv)
+			}
+			if g := s.real.GetSlice(k); !eqSlices(g, wantSl) {
+				s.fail("after %s: GetSlice(%q) = %v, map value %v", after, k, g, mv)
+			}
+			var got any
+			err := s.real.Bind(k, &got)
+			if !mok {
+				if err == nil {
+					s.fail("after %s: Bind(%q) succeeded for a missing key", after, k)
+				}
+			} else {
+				var ref any
+				data, _ := json.Marshal(mv)
+				rerr := json.Unmarshal(data, &ref)
+				if (err == nil) != (rerr == nil) || !reflect.DeepEqual(got, ref) {
+					s.fail("after %s: Bind(%q) gave (%v, %v), JSON round trip of the map value gives (%v, %v)", after, k, got, err, ref, rerr)
+				}
+			}
+		}); p {
+			s.fail("after %s: typed getter panicked: %v", after, pv)
+		}
+	}
 	if n := s.real.Len(); n != len(s.model) {
 		s.fail("after %s: Len() = %d, map has %d", after, n, len(s.model))
 	}
@@ -191,8 +238,17 @@ func (s *storeSys) key() string {
 				sb.WriteByte('n')
 			case v == 1:
 				sb.WriteByte('1')
+			case v == 2:
+				sb.WriteByte('2')
 			default:
-				sb.WriteByte('s')
+				switch v.(type) {
+				case []int:
+					sb.WriteByte('i')
+				case []string:
+					sb.WriteByte('t')
+				default:
+					sb.WriteByte('s')
+				}
 			}
 		}
 		return sb.String()
@@ -310,6 +366,7 @@ func genC14(tier string) []Scenario {
 		{kind: "del", k: "a"}, {kind: "del", k: "ü"}, {kind: "clear"},
 		{kind: "merge", m: map[string]any{"a": "s", "": nil}}, {kind: "merge", nilM: true}, {kind: "mergesnap"},
 		{kind: "hold"}, {kind: "snapset", k: "a", v: "s"}, {kind: "snapdel", k: ""}, {kind: "keysmut"},
+		{kind: "set", k: "a", v: sliceA}, {kind: "merge", m: map[string]any{"a": sliceB}}, {kind: "merge", m: map[string]any{"a": 2, "ü": sliceA}},
 	}
 	for first := range raw {
 		first := first
@@ -333,5 +390,83 @@ func genC14(tier string) []Scenario {
 		}
 		out = append(out, Scenario{Name: fmt.Sprintf("store-raw depth=%d first=%s", depth, raw[first]), Body: body, Check: stdCheck(func() string { return last })})
 	}
+	// sizes around internal thresholds: fill K keys, snapshot, delete them one by one, merge a
+	// big map (and an alias of a snapshot) into the EMPTY store, mutate the caller's map afterwards
+	ks := []int{1, 2, 7, 8, 9, 31, 32, 33, 63, 64, 65, 66, 100, 129, 130}
+	if tier == "thorough" {
+		ks = nil
+		for k := 1; k <= 300; k++ {
+			ks = append(ks, k)
+		}
+	}
+	for _, k := range ks {
+		k := k
+		out = append(out, Scenario{Name: fmt.Sprintf("store-long K=%d", k), Direct: func(deadline time.Time) *core.Stats {
+			st := &core.Stats{ByCost: map[int]int64{}, Outcomes: map[string]int64{}}
+			s := newStoreSys()
+			stKeysSaved := stKeys
+			step := func(o stOp) {
+				s.apply(o)
+				s.observeLite(o.String())
+				st.Executions++
+				st.Transitions++
+			}
+			big := map[string]any{}
+			for i := 0; i < k; i++ {
+				key := fmt.Sprintf("k%03d", i)
+				big[key] = i
+				step(stOp{kind: "set", k: key, v: i})
+			}
+			step(stOp{kind: "hold"})
+			for i := 0; i < k; i++ {
+				step(stOp{kind: "del", k: fmt.Sprintf("k%03d", i)})
+			}
+			step(stOp{kind: "mergesnap"}) // an alias of the snapshot merged into the now empty store
+			step(stOp{kind: "snapset", k: "k000", v: "mutated-after-merge"})
+			step(stOp{kind: "snapdel", k: "k000"})
+			step(stOp{kind: "clear"})
+			step(stOp{kind: "merge", m: big})
+			for i := 0; i < k; i++ {
+				step(stOp{kind: "del", k: fmt.Sprintf("k%03d", i)})
+			}
+			step(stOp{kind: "set", k: "z", v: 1})
+			stKeys = stKeysSaved
+			if len(s.prob) > 0 {
+				st.Violations = append(st.Violations, core.Violation{Msgs: s.prob[:min(3, len(s.prob))]})
+			}
+			st.Outcomes[fmt.Sprintf("K=%d", k)]++
+			st.TreeNodes = int64(st.Executions)
+			st.ByCost[0] = st.Executions
+			return st
+		}})
+	}
 	return out
+}
+
+// observeLite: Len / Keys / GetAll / Has-of-every-model-key against the map (for big stores).
+func (s *storeSys) observeLite(after string) {
+	if n := s.real.Len(); n != len(s.model) {
+		s.fail("after %s: Len() = %d, map has %d", after, n, len(s.model))
+	}
+	all := s.real.GetAll()
+	if !reflect.DeepEqual(all, s.model) {
+		s.fail("after %s: GetAll() has %d entries and differs from the map (%d entries)", after, len(all), len(s.model))
+	}
+	ks := s.real.Keys()
+	if len(ks) != len(s.model) {
+		s.fail("after %s: Keys() has %d entries, map has %d", after, len(ks), len(s.model))
+	}
+	for _, k := range ks {
+		if _, ok := s.model[k]; !ok {
+			s.fail("after %s: Keys() lists %q which is not in the map", after, k)
+		}
+	}
+	for k, mv := range s.model {
+		if v, ok := s.real.Get(k); !ok || !reflect.DeepEqual(v, mv) {
+			s.fail("after %s: Get(%q) = (%v,%v), map says %v", after, k, v, ok, mv)
+		}
+	}
+	if s.snapR != nil && !reflect.DeepEqual(s.snapR, s.snapM) {
+		s.fail("after %s: a snapshot handed out earlier changed", after)
+	}
 }
